@@ -146,3 +146,16 @@ CHECKS["C02"] = dict(
          "table is locked in pass 2) must be the address at which the marker is placed in the pass-2 image.",
     note="Library seam (probe/asmprobe.cpp mirrors main()'s flow); the precondition of the property (no conditional or macro depending on later "
          "symbols) holds by construction; rejected programs are counted, not judged.")
+
+CHECKS["C03"] = dict(
+    level="model_checking", design_ref="DESIGN.md 4/C03",
+    technique="exhaustive enumeration of image shapes (segments x boundary start addresses x lengths) x CPUs x output types; every file decoded "
+              "by decoders written from the format specifications and loaded back through naken_util",
+    text="For 8 CPUs (1/2/4/8 bytes per address, both byte orders, all three S-record widths) every image of one segment at 14 boundary start "
+         "addresses x 11 lengths around the 16-byte record, two segments (pairs of starts up to 16 MiB apart x three lengths) and three segments, "
+         "alternately with exported symbols and an entry point, is written as hex, srec, elf, wdc, uf2, bin, amiga and macho; the file is decoded "
+         "per its specification (record lengths and checksums, extended address records, section tables) and must yield exactly the assembled "
+         "bytes at their addresses (bin: low..high with gaps as zero), ELF symbol table and e_entry / S7-S9 must carry the exported symbols and "
+         "the entry point, and loading hex/srec/elf/wdc/uf2 back with naken_util must print the same bytes.",
+    note="Contiguous formats are only asked for spans below 1 MiB; a missing S-record termination record is tolerated; amiga and macho are only "
+         "checked for carrying the low..high bytes in order; read-back is not judged within 256 bytes of the top of the address space.")
